@@ -124,11 +124,14 @@ func main() {
 	cases = append(cases, inputFaults(e)...)
 	cases = append(cases, damagedInputs(e)...)
 	cases = append(cases, sameFile(e)...)
+	cases = append(cases, sameFileShellSpellings(e)...)
 	cases = append(cases, keygenCases(e)...)
 	cases = append(cases, keygenRaceCases(e)...)
 	cases = append(cases, ptyCases(e)...)
 	cases = append(cases, terminalEnvironments(e)...)
 	cases = append(cases, terminalLargeTexts(e)...)
+	cases = append(cases, terminalFailingStdout(e)...)
+	cases = append(cases, cpuSets(e)...)
 	cases = append(cases, specialOutputs(e)...)
 	cases = append(cases, contentShapes(e)...)
 	cases = append(cases, specialInputs(e)...)
